@@ -138,8 +138,14 @@ Qed.
 
 (* the hypotheses are inhabited by non-trivial values *)
 Example mv_wf_example : mv_wf 8 [7; 9; 18446744073709551615] 5 (zeros 16).
-Proof. unfold mv_wf. repeat split; try (vm_compute; reflexivity); [right; right; right; reflexivity|].
-  repeat constructor; vm_compute; reflexivity. Qed.
+Proof.
+  unfold mv_wf. split; [right; right; right; reflexivity|].
+  split; [repeat constructor; reflexivity|].
+  split; [vm_compute; discriminate|]. split; reflexivity.
+Qed.
 Example crash_example :
   crash w_disk (mv_sync_ops 1 2 w_new) (apply_all w_disk (firstn 2 (mv_sync_ops 1 2 w_new))).
-Proof. apply crash_prefix. Qed.
+Proof. exact (crash_prefix w_disk (mv_sync_ops 1 2 w_new) 2). Qed.
+(* the magic is the byte string "CEV_PAMM" on disk (little-endian "MMAP_VEC") *)
+Example mv_magic_bytes : le_bytes 8 MV_MAGIC = [67; 69; 86; 95; 80; 65; 77; 77].
+Proof. reflexivity. Qed.
